@@ -36,6 +36,14 @@ def clockStep (st : ClockSuiteState) (tok : List String) : Option (ClockSuiteSta
       let v ← parseValue codecCs v
       let c := Clock.new v
       pure ({ st with c := some c }, showClock c)
+  -- a fresh clock at `v` ticks per second, started, one update of 1 s: the timer is exactly `v`
+  -- (the harness compares kira's result with the tick loop the code used to run)
+  | ["tick", v] => do
+      let v ← f64? v
+      let c0 := ((Clock.new (.fixed (.ticksPerSecond v))).hStart).onStartProcessing
+      let (c', r) := c0.update 1.0 Info.empty
+      let rs := match r with | none => "-" | some n => toString n
+      pure (st, s!"{rs} {showClockState c'}")
   | _ => do
     let c ← st.c
     match tok with
@@ -52,14 +60,6 @@ def clockStep (st : ClockSuiteState) (tok : List String) : Option (ClockSuiteSta
         let (c', r) := c.update dt st.info.toInfo
         let rs := match r with | none => "-" | some n => toString n
         pure ({ st with c := some c' }, s!"{rs} {showClock c'}")
-    -- a fresh clock at `v` ticks per second, started, one update of 1 s: the timer is exactly `v`
-    -- (the harness compares kira's result with the tick loop the code used to run)
-    | ["tick", v] => do
-        let v ← f64? v
-        let c0 := ((Clock.new (.fixed (.ticksPerSecond v))).hStart).onStartProcessing
-        let (c', r) := c0.update 1.0 Info.empty
-        let rs := match r with | none => "-" | some n => toString n
-        pure (st, s!"{rs} {showClockState c'}")
     | _ => none
 
 /-! ### suite `clocksys` -/
